@@ -214,7 +214,10 @@ func runCapture(h history, via, sink string, limit int, withRID bool) (captured,
 	var rcv received
 	switch sink {
 	case "server":
-		srv := httptest.NewServer(handler)
+		srv, err := startServer(handler)
+		if err != nil {
+			return cp, rcv, err
+		}
 		resp, err := http.Get(srv.URL + "/capture")
 		if err != nil {
 			srv.Close()
@@ -284,6 +287,9 @@ func TestCapture(t *testing.T) {
 		h := historyGen(t)
 		via := rapid.SampledFrom([]string{"direct", "direct", "direct", "log", "logctx"}).Draw(t, "via")
 		sink := rapid.SampledFrom([]string{"recorder", "recorder", "recorder", "limited", "limited", "server"}).Draw(t, "sink")
+		if sink == "server" && !realSocket() {
+			sink = "recorder"
+		}
 		limit := 0
 		if sink == "limited" {
 			limit = rapid.SampledFrom([]int{0, 1, 16, 300, 4096, 40000}).Draw(t, "breakAfter")
